@@ -395,11 +395,12 @@ def eval_unstructured(ctx, batch, tmpdir):
                 if (rep["f3"] == "1") != f3:
                     ctx.inconsistent(case, "lean f3Class=" + rep["f3"], "python is_f3=%s" % f3)
                 if case["via"] == "mem":
-                    # runtime re-check of C06_unstructured_partial: partition + conforming + not F3 => reads as whole
+                    # runtime re-check of C06_unstructured_hyp_partial (= C06_unstructured_partial + C06_hyp_sound):
+                    # hyp + partition + conforming + not F3 => reads as whole
                     if rep["part"] != "1":
                         ctx.inconsistent(case, "Spec.isPartition=0 on a generated partition", "1")
                     if rep["conf"] == "1" and rep["f3"] == "0" and rep["ok"] != "1":
-                        ctx.inconsistent(case, "model: merged pieces do not read as the whole", "theorem C06_unstructured_partial")
+                        ctx.inconsistent(case, "model: merged pieces do not read as the whole", "theorem C06_unstructured_hyp_partial")
                     if whole_has_no_orphans(case["whole"]) and rep.get("okby") != rep["ok"]:
                         ctx.inconsistent(case, "Spec.readsAsWholeBy=" + str(rep.get("okby")), "Spec.readsAsWhole=" + rep["ok"])
                     if (rep["ok"] == "1") != (model_c == ref_c):
@@ -961,7 +962,7 @@ def eval_structured_file(ctx, cases, tmpdir):
             continue
         model = [int(x) for x in rep["model"].split(",")]
         if model != list(range(len(model))):
-            ctx.inconsistent(case, {"kind": kind, "model_merged_ids": model}, "0..n-1 (theorems C06_decomposition + C06_structured_index)")
+            ctx.inconsistent(case, {"kind": kind, "model_merged_ids": model}, "0..n-1 (theorem C06_structured_fields)")
         want_sizes = "|".join(",".join(str(x) for x in ns) for ns in case["d3"])
         if rep["sizes"] != want_sizes:
             ctx.inconsistent(case, {"sizes": rep["sizes"]}, want_sizes)
